@@ -207,6 +207,9 @@ protected:
       }
     });
 
+    detail::dynamic_check(chosen_trampoline != nullptr,
+                          "No free callback slot: too many callbacks are "
+                          "registered at the same time");
     return reinterpret_cast<T_PointerType>(chosen_trampoline);
   }
 
